@@ -15,6 +15,8 @@ CLAIMED = {
           "deterministic simulation: paired seeded runs differing in one configuration knob"),
  "C09": ("html-stream", "4.6", "at every token emission of every simulated run the reported line is compared with 1 + line breaks in the input consumed so far, measured by the harness-owned queue (no hook); set_current_line forwarding checked against the token's line",
           "deterministic simulation: consumption probe invariant at every emission"),
+ "C15": ("xml-stream", "4.11", "xml5ever tokenizer + tree builder under simulated delivery: tree of any schedule equals the one-piece tree; exact_errors flip; discard_bom; and any schedule/option set equals the one-piece character-at-a-time run of the pre-normalised input (CR/CRLF->LF, NUL->U+FFFD)",
+          "deterministic simulation: seeded schedule search, run-vs-reference-run oracle"),
  "C18": ("html-stream + xml-stream", "4.12", "a simulated collector runs at seeded suspension points, roots = trace_handles + handles held by the embedder, poisons everything not connected to a root; any later sink call on a poisoned node is a violation; trees with and without collections must agree",
           "deterministic simulation: garbage-collection fault injected at suspension points"),
  "C19": ("html-stream", "4.13", "history check over recorded sink calls and feed() results: expected indicators are derived from inserted HTML meta elements with an independent implementation of the WHATWG extraction algorithm; sequence equal under every schedule; resumption transparent",
@@ -35,7 +37,6 @@ PENDING = {
  "C11": "not claimed at this commit: tendril history world not built yet (planned, DESIGN.md §4.8)",
  "C12": "not claimed at this commit: allocation ledger / Miri thread world not built yet (planned, DESIGN.md §4.9)",
  "C13": "not claimed at this commit: BufferQueue history world not built yet (planned, DESIGN.md §4.10)",
- "C15": "not claimed at this commit: XML stream world not built yet (planned, DESIGN.md §4.11)",
  "C20": "not claimed at this commit: RcDom history world not built yet (planned, DESIGN.md §4.14)",
 }
 
@@ -65,6 +66,7 @@ def main():
             "add_only": True,
         },
         "engines": [
+            {"name": "xml-stream", "path": "/verif/sim/simcore/src/xml_stream.rs", "serves_properties": ["C04", "C05", "C08", "C15", "C18"], "kind_free_text": "the same event loop driving xml5ever's tokenizer and tree builder"},
             {"name": "html-stream", "path": "/verif/sim/simcore/src/html_stream.rs", "serves_properties": ["C03", "C04", "C05", "C06", "C08", "C09", "C18", "C19"], "kind_free_text": "sequential discrete-event simulator of the HTML push-parser protocol (source, embedder, script, collector, sinks)"},
         ],
         "checks": checks,
